@@ -81,6 +81,12 @@ def check_pair(case, sub="pairs"):
     f_aa = guarded(sub, icls, sfm.fidelity, ta, ta2)
     if abs(f_aa - 1) > 1e-9:
         raise Violation(sub, "fidelity-value", "metric.fidelity", "same-state", "two presentations of one state: F=%r" % float(f_aa))
+    # the same object as both arguments
+    f_tt = guarded(sub, icls, sfm.fidelity, ta, ta)
+    if abs(f_tt - 1) > 1e-9:
+        raise Violation(sub, "fidelity-value", "metric.fidelity", "same-object", "fidelity(t, t) with one object as both arguments = %r" % float(f_tt))
+    if not (_unchanged(ta, sa) and _unchanged(tb, sb)):
+        raise Violation(sub, "argument-mutated", "metric.fidelity", icls, "a fidelity call changed one of its arguments")
     # equality and canonical form
     eq = guarded(sub, icls, lambda: Stabilizer(ta.copy()) == Stabilizer(tb.copy()))
     if bool(eq) != (F > 1 - 1e-9):
